@@ -309,7 +309,7 @@ def ob_result_other(sim, seed):
             small = 1e-3 * rng.normal(size=nd)
             if sim == "PhaseField" and str(pt) == "damage":
                 small = np.abs(small) * 10
-            s._Set_solutions(pt, small, np.zeros(nd), np.zeros(nd))
+            s._Set_solutions(pt, small, rng.normal(size=nd), 3.0 * rng.normal(size=nd))        # distinct, non-zero velocity and acceleration
     names = s.Results_Available()
     n = 0
     got = {}
@@ -335,6 +335,21 @@ def ob_result_other(sim, seed):
                 n += 1
                 if not np.array_equal(got[(key, True)].ravel(), full[:, d]):
                     raise Refuted(f"{sim}: '{key}' is not column {d} of 'displacement'", cex=dict(simulation=sim, name=key), signature=f"result:{sim}:component:{key}", replay=dict(confirmed=True))
+    # velocity / acceleration vectors and their components (dynamic simulations)
+    for base, pre in (("speed", "v"), ("accel", "a"), ("velocity", "v"), ("acceleration", "a")):
+        if (base, True) not in got:
+            continue
+        full = got[(base, True)].reshape(Nn, -1)
+        for d, cn in enumerate("xyz"[:full.shape[1]]):
+            key = pre + cn
+            if (key, True) in got:
+                n += 1
+                if not np.array_equal(got[(key, True)].ravel(), full[:, d]):
+                    raise Refuted(f"{sim}: '{key}' is not column {d} of '{base}'", cex=dict(simulation=sim, name=key), signature=f"result:{sim}:component:{key}", replay=dict(confirmed=True))
+        if (base + "_norm", True) in got:
+            n += 1
+            if not np.allclose(got[(base + "_norm", True)].ravel(), np.linalg.norm(full, axis=1), rtol=1e-12):
+                raise Refuted(f"{sim}: '{base}_norm' is not the norm of '{base}'", signature=f"result:{sim}:norm:{base}", replay=dict(confirmed=True))
     # vector results named by a single letter (weak-form simulations: u, v, a) and their components
     for base in ("u", "v", "a"):
         if (base, True) not in got:
